@@ -9,22 +9,34 @@ import (
 )
 
 // pausingLB sits between the Rebalancer and the real RoundRobin (it is the Rebalancer's BalancerHandler)
-// and delegates everything.  Once armed, the first UpsertServer that reaches it — the first weight the
-// rebalancer pushes into the balancer — is held until release() or a timeout, so that an administration
-// call can be issued at exactly that point: the interleaving "RemoveServer while weights are being
-// applied" becomes deterministic instead of a matter of luck.
+// and delegates everything.  Once armed it holds one call of the rebalancer into the balancer until
+// release or a timeout, so that another call can be issued at exactly that point: interleavings such as
+// "RemoveServer while weights are being applied" become deterministic instead of a matter of luck.
+//
+//	holdBeforeFirstUpsert: the first UpsertServer after arming is held before it is delegated
+//	holdAfterNthUpsert:    the n-th UpsertServer after arming is held after it has been delegated
+//	                       (n = number of servers: the whole weight push has been applied)
+//	holdAfterRemove:       the first RemoveServer after arming is held after it has been delegated
 type pausingLB struct {
 	*roundrobin.RoundRobin
 	mu      sync.Mutex
-	armed   bool
+	mode    int
+	n       int
 	reached chan struct{}
 	resume  chan struct{}
 }
 
-func (p *pausingLB) arm() (reached, resume chan struct{}) {
+const (
+	holdNone = iota
+	holdBeforeFirstUpsert
+	holdAfterNthUpsert
+	holdAfterRemove
+)
+
+func (p *pausingLB) arm(mode, n int) (reached, resume chan struct{}) {
 	p.mu.Lock()
 	defer p.mu.Unlock()
-	p.armed = true
+	p.mode, p.n = mode, n
 	p.reached = make(chan struct{})
 	p.resume = make(chan struct{})
 	return p.reached, p.resume
@@ -32,22 +44,53 @@ func (p *pausingLB) arm() (reached, resume chan struct{}) {
 
 func (p *pausingLB) disarm() {
 	p.mu.Lock()
-	p.armed = false
+	p.mode = holdNone
 	p.mu.Unlock()
+}
+
+func hold(reached, resume chan struct{}) {
+	close(reached)
+	select {
+	case <-resume:
+	case <-time.After(2 * time.Second):
+	}
 }
 
 func (p *pausingLB) UpsertServer(u *url.URL, opts ...roundrobin.ServerOption) error {
 	p.mu.Lock()
-	hold := p.armed
-	p.armed = false
-	reached, resume := p.reached, p.resume
-	p.mu.Unlock()
-	if hold {
-		close(reached)
-		select {
-		case <-resume:
-		case <-time.After(2 * time.Second):
+	before, after := false, false
+	switch p.mode {
+	case holdBeforeFirstUpsert:
+		before, p.mode = true, holdNone
+	case holdAfterNthUpsert:
+		p.n--
+		if p.n <= 0 {
+			after, p.mode = true, holdNone
 		}
 	}
-	return p.RoundRobin.UpsertServer(u, opts...)
+	reached, resume := p.reached, p.resume
+	p.mu.Unlock()
+	if before {
+		hold(reached, resume)
+	}
+	err := p.RoundRobin.UpsertServer(u, opts...)
+	if after {
+		hold(reached, resume)
+	}
+	return err
+}
+
+func (p *pausingLB) RemoveServer(u *url.URL) error {
+	p.mu.Lock()
+	after := p.mode == holdAfterRemove
+	if after {
+		p.mode = holdNone
+	}
+	reached, resume := p.reached, p.resume
+	p.mu.Unlock()
+	err := p.RoundRobin.RemoveServer(u)
+	if after {
+		hold(reached, resume)
+	}
+	return err
 }
